@@ -48,7 +48,12 @@ class Attribute(_expression.Any):
 
     def __eq__(self, other: object) -> bool:
         if isinstance(other, Attribute):
-            return (self._data_type == other._data_type) and (self._name == other.name)
+            # A field and a constant of the same type and name are different attributes (and their hashes differ).
+            return (
+                (type(self) is type(other))
+                and (self._data_type == other._data_type)
+                and (self._name == other.name)
+            )
         return NotImplemented  # pragma: no cover
 
     def __str__(self) -> str:
